@@ -1065,6 +1065,124 @@ example : iterIds exSteps = [(1, 40, false), (1, 41, false)] := by decide
 example : (runSteps 6 (Session.create 6 ⟨exDoc, 1, []⟩) exSteps).writable = true
     ∧ (runSteps 6 (Session.create 6 ⟨exDoc, 1, []⟩) (exSteps.take 3)).writable = false := by decide
 
+/-! ## components instantiated after a reload: the restarted experiment continues the loop like the one that never
+stopped -/
+
+section afterReload
+variable {N : Nat} {L : Doc} {P : Name}
+
+/-- `flatComp` reads the variables and the blueprints of a description, not its component list -/
+private theorem flatComp_congr (L1 L2 : Doc) (hv : L1.vars = L2.vars) (hb : L1.bps = L2.bps) (c : Comp) :
+    flatComp N L1 P c = flatComp N L2 P c := by
+  unfold flatComp layeredOpts cctx gvars gv0 svars sctx sv0 gvars gv0
+  rw [hv, hb]
+
+private theorem svars_second_stage (h : resolves N L P = true) (s : Nat) (hs : s ∈ L.comps.map (·.stage)) :
+    svars N (flatten N L P) P s = svars N L P s := by
+  obtain ⟨c', hc', rfl⟩ := List.mem_map.mp hs
+  exact svars_second h c' hc'
+
+private theorem bpg_closed (hcl : dictClosed (gvars N L P) (bpg0 L P) = true) : bpg N L P = bpg0 L P :=
+  mapVals_interp_closed N (gvars N L P) _ _ (fun _ => rfl) ((dictClosed_iff _ _).mp hcl)
+
+private theorem bpsv_closed (s : Nat) (hcl : dictClosed (bpsCtx N L P s) (bps0 L P s) = true) :
+    bpsv N L P s = bps0 L P s :=
+  mapVals_interp_closed N (bpsCtx N L P s) _ _ (fun _ => rfl) ((dictClosed_iff _ _).mp hcl)
+
+/-- the layered options of a NEW component on the stored description answer every lookup like its layered options
+on the package description -/
+private theorem layeredOpts_new (c : Comp) (hs : c.stage ∈ L.comps.map (·.stage))
+    (hcl : bpClosed N L P c.stage = true) (hord : bpOrderFree L P c.stage = true) (k : Name) :
+    get? (layeredOpts (flatten N L P) P c) k = get? (layeredOpts L P c) k := by
+  unfold bpClosed at hcl
+  rw [Bool.and_eq_true] at hcl
+  unfold layeredOpts
+  rw [bps_flatten_zero, stage_map _ _ _ _ hs, bpg_closed hcl.1, bpsv_closed _ hcl.2]
+  by_cases hP : P = 0
+  · subst hP
+    rw [bps_flatten_zero, stage_map _ _ _ _ hs, bpg_closed hcl.1, bpsv_closed _ hcl.2]
+    simp only [get?_update, bpg0, bps0]
+    cases get? (ovrOpts c 0) k <;> cases get? c.opts k <;> cases get? ((layerOf L.bps 0).stage c.stage) k <;>
+      cases get? (layerOf L.bps 0).glob k <;> rfl
+  · rw [bps_flatten_ne N L P hP]
+    have hfree : ∀ v, get? ((layerOf L.bps 0).stage c.stage) k = some v → get? (layerOf L.bps P).glob k = none := by
+      intro v hv
+      unfold bpOrderFree at hord
+      have hP' : (P == 0) = false := by simpa using hP
+      rw [hP', Bool.false_or, List.all_eq_true] at hord
+      have := hord (k, v) (get?_some_mem hv)
+      exact (get?_eq_none_iff _ _).mpr (by simpa using this)
+    simp only [get?_update, bpg0, bps0, Layer.empty]
+    cases h1 : get? ((layerOf L.bps 0).stage c.stage) k with
+    | none =>
+      cases get? (ovrOpts c P) k <;> cases get? c.opts k <;> cases get? ((layerOf L.bps P).stage c.stage) k <;>
+        cases get? (layerOf L.bps P).glob k <;> cases get? (layerOf L.bps 0).glob k <;> rfl
+    | some v =>
+      rw [hfree v h1]
+      cases get? (ovrOpts c P) k <;> cases get? c.opts k <;> cases get? ((layerOf L.bps P).stage c.stage) k <;>
+        cases get? (layerOf L.bps 0).glob k <;> rfl
+
+end afterReload
+
+/-- **A component instantiated after a reload is stored like the one the never-reloaded experiment instantiates**
+(`_partial`): for every description `L` that resolves, every NEW (non-document) component `c` of a stage the
+description knows (the stage of the `$import` entry of the loop), the component that an experiment loaded from the
+stored description stores for `c` (`flatComp` on `flatten N L P`: what `instantiate_dowhile_next_iteration` of a
+restarted experiment writes and what `configurationForNode` is computed from) is the component the experiment that
+still holds the package description stores: same variables (interpolated), same override blocks, and every option
+lookup — blueprint-inherited settings (environment, resource request, resource manager options …) included — answers
+alike.  Hypotheses (decidable, evaluated by the driver on every case; what is missing from the full statement, see
+`Witness.C07`): `bpClosed` — the inherited blueprint values mention no variable defined in the scope in which the store
+interpolates them; `bpOrderFree` — no option path is set both by the default blueprint of the stage and by the global
+blueprint of the selected non-default platform (the stored description folds the four blueprint layers into two, which
+swaps the precedence of exactly these two). -/
+theorem new_component_after_reload_partial (N : Nat) (L : Doc) (P : Name) (c : Comp)
+    (h : resolves N L P = true) (hd : c.isDoc = false) (hs : c.stage ∈ L.comps.map (·.stage))
+    (hcl : bpClosed N L P c.stage = true) (hord : bpOrderFree L P c.stage = true) :
+    sameComp (flatComp N (flatten N L P) P c) (flatComp N L P c) = true := by
+  have hvars : (flatComp N (flatten N L P) P c).vars = (flatComp N L P c).vars := by
+    rw [flatComp_vars c hd, flatComp_vars c hd]
+    unfold cctx
+    rw [gvars_second h, svars_second_stage h c.stage hs]
+  have hovr : (flatComp N (flatten N L P) P c).ovr = (flatComp N L P c).ovr := by
+    rw [flatComp_ovr _ _ _ c hd, flatComp_ovr _ _ _ c hd]
+  have hopts : ∀ k, get? (flatComp N (flatten N L P) P c).opts k = get? (flatComp N L P c).opts k := by
+    intro k
+    have e1 : (flatComp N (flatten N L P) P c).opts = layeredOpts (flatten N L P) P c := by simp [flatComp, hd]
+    have e2 : (flatComp N L P c).opts = layeredOpts L P c := by simp [flatComp, hd]
+    rw [e1, e2]
+    exact layeredOpts_new c hs hcl hord k
+  unfold sameComp sameLookups
+  simp only [flatComp_stage, flatComp_name, flatComp_isDoc, hvars, hovr, beq_self_eq_true, Bool.true_and,
+    List.all_eq_true, beq_iff_eq]
+  intro e _
+  exact hopts e.1
+
+/-- **The restarted experiment continues the loop like the experiment that was never reloaded** (`_partial`, same
+hypotheses as `new_component_after_reload_partial`, collected in `newCompsOk`): when the experiment `reload N E` loaded
+from the instance directory and the experiment `E` that wrote it instantiate the same next iteration `cs`
+(`addIteration`), the descriptions they store list, for every new component, the same component (`sameComp`); the
+components that existed before are those of `store N E` in both (`session_disk_is_store`). -/
+theorem iteration_after_reload_like_control_partial (N : Nat) (E : Exp) (cs : List Comp)
+    (h : resolves N E.doc E.plat = true) (hok : newCompsOk N E.doc E.plat cs = true) :
+    ∀ c ∈ cs, sameComp (flatComp N (addIteration (reload N E) cs).doc E.plat c)
+      (flatComp N (addIteration E cs).doc E.plat c) = true := by
+  intro c hc
+  unfold newCompsOk at hok
+  rw [List.all_eq_true] at hok
+  have hc' := hok c hc
+  simp only [Bool.and_eq_true, Bool.not_eq_true', List.contains_iff_mem] at hc'
+  obtain ⟨⟨⟨hd, hs⟩, hcl⟩, hord⟩ := hc'
+  have e1 : flatComp N (addIteration (reload N E) cs).doc E.plat c = flatComp N (flatten N E.doc E.plat) E.plat c :=
+    flatComp_congr _ _ rfl rfl c
+  have e2 : flatComp N (addIteration E cs).doc E.plat c = flatComp N E.doc E.plat c :=
+    flatComp_congr _ _ rfl rfl c
+  rw [e1, e2]
+  exact new_component_after_reload_partial N E.doc E.plat c h hd hs hcl hord
+
+/-- the hypotheses are satisfiable by a non-trivial input: `exDoc` on platform 1 has blueprints in both layers -/
+example : newCompsOk 6 exDoc 1 [⟨1, 40, false, [(30, [.ch 120])], [], []⟩] = true := by decide
+
 end St4sd.C07
 
 /-! ## the instance directory: top-level folders and the references into them
